@@ -99,6 +99,8 @@ type Results struct {
 	iterDone   bool
 
 	closeOnce sync.Once
+
+	verifID int64 // event correlation (0 without the verif tag)
 }
 
 // newResults builds a cursor whose internal context is derived from the
@@ -112,6 +114,7 @@ func newResults(ctx context.Context) *Results {
 		rowChan:   make(chan []map[string]any, queryRowBatchBuffer),
 		done:      make(chan struct{}),
 		start:     time.Now(),
+		verifID:   verifNextID(),
 	}
 }
 
@@ -129,6 +132,7 @@ func newResults(ctx context.Context) *Results {
 // dropped, and Err returns the context error.
 func (r *Results) Next() bool {
 	if r.iterDone {
+		verifEvent("res.next.done", r.verifID, 0)
 		return false
 	}
 
@@ -136,19 +140,24 @@ func (r *Results) Next() bool {
 	// termination drops undelivered rows rather than draining them.
 	select {
 	case <-r.ctx.Done():
+		verifEvent("res.next.term", r.verifID, 0)
 		return r.terminate()
 	default:
 	}
 
 	if r.pendingIdx < len(r.pending) {
+		verifEvent("res.next.pending", r.verifID, 0)
 		r.current = r.pending[r.pendingIdx]
 		r.pendingIdx++
 		return true
 	}
 
+	verifEvent("res.next.wait", r.verifID, 0)
+	verifPause("res.next.wait", r.verifID)
 	select {
 	case batch, ok := <-r.rowChan:
 		if !ok {
+			verifEvent("res.next.closed", r.verifID, 0)
 			// Clean completion: all workers finished and every buffered row
 			// has been delivered. Recorded errors (failed blocks, a failed
 			// MetaStore iteration), if any, are the terminal state; the query
@@ -158,11 +167,13 @@ func (r *Results) Next() bool {
 			return false
 		}
 		// Workers only deliver non-empty batches.
+		verifEvent("res.next.batch", r.verifID, int64(len(batch)))
 		r.pending = batch
 		r.pendingIdx = 1
 		r.current = batch[0]
 		return true
 	case <-r.ctx.Done():
+		verifEvent("res.next.ctx", r.verifID, 0)
 		return r.terminate()
 	}
 }
@@ -232,17 +243,21 @@ func (r *Results) Stats() QueryStats {
 // Close (nil if none). A closed Results is not reusable.
 func (r *Results) Close() error {
 	r.closeOnce.Do(func() {
+		verifEvent("res.close.begin", r.verifID, 0)
 		r.cancel()
 		<-r.done
+		verifPause("res.close.waited", r.verifID)
 
 		err := r.joinedErrs()
 		r.mu.Lock()
+		verifEvent("res.close.final", r.verifID, 0)
 		if !r.finalized {
 			r.finalized = true
 			r.err = err
 		}
 		r.mu.Unlock()
 	})
+	verifEvent("res.close.ret", r.verifID, 0)
 	return nil
 }
 
@@ -252,13 +267,17 @@ func (r *Results) Close() error {
 func (r *Results) terminate() bool {
 	r.cancel()
 	<-r.done
+	verifEvent("res.term.waited", r.verifID, 0)
+	verifPause("res.term.waited", r.verifID)
 
 	var err error
 	if cerr := r.callerCtx.Err(); cerr != nil {
 		err = fmt.Errorf("query canceled: %w", cerr)
+		verifEvent("res.term.decide", r.verifID, 1)
 	} else {
 		// Close path: keep whatever recorded errors existed before Close.
 		err = r.joinedErrs()
+		verifEvent("res.term.decide", r.verifID, 0)
 	}
 	r.finish(err)
 	return false
@@ -272,6 +291,7 @@ func (r *Results) finish(err error) {
 	r.pending = nil
 	r.pendingIdx = 0
 	r.mu.Lock()
+	verifEvent("res.finish", r.verifID, 0)
 	if !r.finalized {
 		r.finalized = true
 		r.err = err
@@ -294,20 +314,25 @@ func (r *Results) joinedErrs() error {
 // before resuming the scan. Returns the context error when the query
 // terminated instead of accepting the batch.
 func (r *Results) deliver(slot *querySlot, batch []map[string]any) error {
+	verifEvent("res.deliver.try", r.verifID, int64(len(batch)))
 	select {
 	case r.rowChan <- batch:
 		r.rowsMatched.Add(int64(len(batch)))
+		verifEvent("res.deliver.fast", r.verifID, int64(len(batch)))
 		return nil
 	default:
 	}
 
 	slot.release()
+	verifPause("res.deliver.block", r.verifID)
 	select {
 	case r.rowChan <- batch:
 	case <-r.ctx.Done():
+		verifEvent("res.deliver.ctx", r.verifID, int64(len(batch)))
 		return r.ctx.Err()
 	}
 	r.rowsMatched.Add(int64(len(batch)))
+	verifEvent("res.deliver.slow", r.verifID, int64(len(batch)))
 	if !slot.acquire() {
 		return r.ctx.Err()
 	}
@@ -349,6 +374,7 @@ func (b *rowBatcher) flush() error {
 // and lossless: a slice append, not a lossy channel write.
 func (r *Results) recordBlockStats(stats BlockStats) {
 	r.mu.Lock()
+	verifEvent("res.stat", r.verifID, int64(stats.BlockOffset))
 	r.blockStats = append(r.blockStats, stats)
 	r.mu.Unlock()
 }
@@ -359,6 +385,7 @@ func (r *Results) recordBlockStats(stats BlockStats) {
 // surfaces from Err, joined with any others, once iteration finishes.
 func (r *Results) recordQueryError(err error) {
 	r.mu.Lock()
+	verifEvent("res.err", r.verifID, 0)
 	r.errs = append(r.errs, err)
 	r.mu.Unlock()
 }
@@ -375,6 +402,7 @@ func (r *Results) recordBlockError(err error) {
 // completion) and done closes (terminate and Close stop waiting).
 func (r *Results) markWorkersDone() {
 	r.mu.Lock()
+	verifEvent("res.workersdone", r.verifID, 0)
 	r.duration = time.Since(r.start)
 	r.finished = true
 	r.mu.Unlock()
@@ -399,9 +427,11 @@ func (s *querySlot) acquire() bool {
 	}
 	select {
 	case s.sem <- struct{}{}:
+		verifEvent("slot.acq.ok", 0, 0)
 		s.held = true
 		return true
 	case <-s.ctx.Done():
+		verifEvent("slot.acq.ctx", 0, 0)
 		return false
 	}
 }
@@ -411,6 +441,7 @@ func (s *querySlot) release() {
 	if !s.held {
 		return
 	}
+	verifEvent("slot.rel", 0, 0)
 	<-s.sem
 	s.held = false
 }
